@@ -19,16 +19,40 @@ from .lib_db import NAMES, VERS, TAGS
 from .lib_dbref import fallbacks
 
 RULE = ("cases = histories of 4-14 commands of the C06 generator by users A and B (separate cache directories), "
-        "~12% of the mutating commands killed after their 1st-3rd Database mutation, ~8% cache-file deletions; after "
-        "every command each user runs a query process (Linux, sometimes generic) answering, through the cache and "
-        "through the files, 'is (n, v) declared / where / with which tags' for 3x3 (n, v), 'which version has tag t' "
-        "for 3x3 (n, t) and the listing of each product; a history is non-trivial when at least 3 commands change the "
-        "database and at least one query process accepted a cache and one rebuilt one; distinct = distinct digests")
+        "~12% of the mutating commands killed after their 1st-3rd Database mutation, ~8% cache events: a cache file of a "
+        "user or of the stack-wide cache inside ups_db/ deleted, `eups admin clearCache`, `eups admin buildCache -A` "
+        "(writes the stack-wide cache; the user's own caches go); after every command each user runs a query process "
+        "(Linux, sometimes generic) answering, through the cache and through the files, 'is (n, v) declared / where / "
+        "with which tags' for 3x3 (n, v), 'which version has tag t' for 3x3 (n, t) and the listing of each product; a "
+        "history is non-trivial when at least 3 commands change the database and at least one query process accepted "
+        "a cache and one rebuilt one; distinct = distinct digests")
 TRUSTED = ["fork-per-command runner, audit-log mtime normaliser, crash interposer of harness/lib_db.py",
            "pickle round-trips the cache object graph (exercised, not modelled)"]
 ASSUMPTIONS = ["commands do not interleave (C09 owns the locks); two events within one kernel timestamp tick are not "
                "exhibited: the harness renumbers modification times in the order of the audit log",
-               "the users share the database files and nothing else; all stacks writable; global tags only"]
+               "the users share the database files and the cache inside ups_db/, nothing else; all stacks writable; global "
+               "tags only; the stacks have no ups_db/global.tags, so `Eups(asAdmin=True)` ends with RuntimeError in "
+               "_loadServerTags after it has read or built the caches (reported as the outcome, the caches are checked)"]
+
+# the functions the model mirrors (harness/fingerprint.py): a changed fingerprint makes the quick tier run with the thorough case budget
+MIRRORS = [
+    ('python/eups/Eups.py', 'Eups.declare'),
+    ('python/eups/Eups.py', 'Eups.undeclare'),
+    ('python/eups/Eups.py', 'Eups.assignTag'),
+    ('python/eups/Eups.py', 'Eups.unassignTag'),
+    ('python/eups/Eups.py', 'Eups.remove'),
+    ('python/eups/Eups.py', 'Eups._remove'),
+    ('python/eups/Eups.py', 'Eups.findProducts'),
+    ('python/eups/Eups.py', 'Eups.findProduct'),
+    ('python/eups/Eups.py', 'Eups.__init__'),
+    ('python/eups/Eups.py', 'Eups._setProductStack_fromCache'),
+    ('python/eups/Eups.py', 'Eups.findTaggedProduct'),
+    ('python/eups/stack/ProductStack.py', '*'),
+    ('python/eups/stack/ProductFamily.py', '*'),
+    ('python/eups/db/Database.py', '*'),
+    ('python/eups/app.py', 'clearCache'),
+    ('python/eups/utils.py', 'userStackCacheFor'),
+]
 
 WORKERS = c06.WORKERS
 
@@ -49,8 +73,10 @@ def probe(world, e):
     def ptuple(p, tags=True):
         if p is None:
             return None
-        t = [world.canon_path(p.dir), world.canon_table(p.name, p.dir, p.tablefile)]
-        return [_si(world, p)] + t + ([sorted(str(x) for x in p.tags)] if tags else [])
+        si = _si(world, p)
+        t = [world.canon_path(p.dir), world.canon_table(p.name, p.dir, p.tablefile,
+                                                         (si, p.flavor, p.version) if isinstance(si, int) else None)]
+        return [si] + t + ([sorted(str(x) for x in p.tags)] if tags else [])
     out = {"cache": {}, "files": {}}
     for n in NAMES:
         out["cache"]["list/" + n] = sorted([[p.version, p.flavor] + ptuple(p) for p in e.findProducts(n)])
@@ -134,8 +160,13 @@ def check_case(ctx, case, steps, msteps):
         if rec["db"] != prev:
             nchange += 1
         prev = rec["db"]
-        if cmd["op"] in ("rmcache", "clearcache"):
-            ctx.hist("rm cache" if cmd["op"] == "rmcache" else "eups admin clearCache")
+        if cmd["op"] in ("rmcache", "clearcache", "adminbuild"):
+            ctx.hist({"rmcache": "rm cache", "clearcache": "eups admin clearCache", "adminbuild": "eups admin buildCache -A"}[cmd["op"]])
+            if cmd["op"] == "adminbuild" and rec["out"] == "ok" and \
+                    not all("%s/%d/%s" % (lib_db.SYS, si, f) in rec.get("sys_caches", []) for si in range(lib_db.NSTACKS)
+                            for f in fallbacks(cmd.get("flavor", "Linux"))):
+                ctx.fail("admin_build_builds", sub, dict(impl_obs, sys_caches=rec.get("sys_caches")), model_obs,
+                         note="cache files inside ups_db/ after eups admin buildCache -A: %s" % rec.get("sys_caches"))
             if rec.get("caches_left"):
                 ctx.fail("clear_cache_clears", sub, dict(impl_obs, caches_left=rec["caches_left"]), model_obs,
                          note="cache files of the user left after eups admin clearCache: %s" % rec["caches_left"])
